@@ -25,6 +25,7 @@ PP = "SPECIFICATION Spec\nCONSTANTS\n  MaxLen = 2\n  First = {first}\n  EmitCase
 FS = ("SPECIFICATION EdgeSpec\nCONSTANTS\n  Sources <- Src_AB\n  Deps <- Deps_AB\n  HasTemp <- Temp_AB\n  Failing <- Fail_None\nVIEW View\n"
       "INVARIANTS BuildIdempotent BuildForgets CleanRestores NeededAfterBuildIdle\n"
       "PROPERTIES BuildHermetic BuildVerdict NeededEquivBuild NoRewriteWhenFresh VerifyExact CleanRemoves OnlyOwnPaths\nCHECK_DEADLOCK FALSE\n")
+CLI = "SPECIFICATION Spec\nCONSTANTS\n  MaxLen = 3\n  Part = 0\n  Parts = 1\nINVARIANTS TypeOK GuardFirst CleanInert NeededIsBuild InputsKept OptionsReach\nCHECK_DEADLOCK FALSE\n"
 IO = open(os.path.join(SPEC, "IoCtx.cfg")).read()
 LE = "SPECIFICATION Spec\nCONSTANTS\n  MaxLen = 4\n  EmitTable = FALSE\nINVARIANTS Equiv\nCHECK_DEADLOCK FALSE\n"
 RES = ("SPECIFICATION Spec\nCONSTANTS\n  DirFilesR <- TreeFiles\n  DirSubsR <- TreeSubs\n  DepsOf <- TreeDeps\n  MaxIn = 0\n  Part = 0\n  Parts = 1\n"
@@ -71,6 +72,11 @@ MUTANTS = [
     ("resolve-set-extension-bug (finding F4)", "Resolve.tla", "OutputName(n) == IF Ext(n) = \"txtpp\" THEN DropExt(n) ELSE DropExt(DropExt(n)) \\o \".\" \\o Ext(n)",
      "OutputName(n) == IF Ext(n) = \"txtpp\" THEN DropExt(n) ELSE (IF HasExt(DropExt(DropExt(n))) THEN DropExt(DropExt(DropExt(n))) ELSE DropExt(DropExt(n))) \\o \".\" \\o Ext(n)",
      "MCResolve.tla", RES, {"Shapes", "NameOK"}),
+    ("cli-verify-drops-the-newline-option", "Cli.tla", "trailing  |-> IF level = \"clean\" THEN TRUE ELSE \"-n\" \\notin Eff.set]",
+     "trailing  |-> IF level # \"top\" THEN TRUE ELSE \"-n\" \\notin Eff.set]", "Cli.tla", CLI, {"OptionsReach"}),
+    ("cli-guard-after-parsing", "Cli.tla", "Outcome == IF envFile = \"set\" THEN \"refused\"", "Outcome == IF envFile = \"set\" /\\ status # \"usage\" THEN \"refused\"",
+     "Cli.tla", CLI, {"GuardFirst"}),
+    ("cli-clean-accepts-a-shell", "Cli.tla", "shell     |-> IF level = \"clean\" THEN \"\" ELSE Eff.s,", "shell     |-> top.s,", "Cli.tla", CLI, {"CleanInert", "OptionsReach"}),
 ]
 
 
